@@ -16,7 +16,8 @@ RACE = False
 JOBS = 8
 RULE = ("scenario = interleaved history of 2-6 sources through one TokenLimiter (capacity below / at / above the number of sources) with, "
         "next to it, one private TokenLimiter per source fed only that source's requests (solo=1; a source named as eviction victim "
-        "restarts its private limiter); or interleaved starts/finishes through one ConnLimiter; plus (post_check) bare TTLMap histories "
+        "restarts its private limiter); or interleaved starts/finishes through one ConnLimiter whose protected handler may rewrite the "
+        "request's source header to another source with an open connection before returning; plus (post_check) bare TTLMap histories "
         "with equal expiries whose eviction choice is read back from the implementation and checked legal by the model; "
         "non-trivial = >= 2 sources, both a 200 and a refusal, and (over-capacity scenarios) at least one eviction")
 ASSUMPTIONS = [
@@ -83,20 +84,39 @@ def _over(rng, n_ops, rates=None, cap=None, nsrc=None):
 
 
 def _conn(rng, n_ops):
+    """interleaved starts / finishes; a finishing handler often rewrites the header the extractor reads to the token of
+    ANOTHER source that has a connection open (what proxy middlewares do to requests) — the release must still be booked
+    on the source captured before acquire"""
     mx = rng.choice([1, 1, 2, 3])
     nsrc = rng.randint(2, 4)
     lines = ["cfg conn max=%d" % mx]
-    live = []
+    live = {}          # id -> src, admitted according to the source's own history
     nid = 0
     for _ in range(n_ops):
         if live and rng.random() < 0.45:
-            i = rng.choice(live)
-            live.remove(i)
-            lines.append("finish %s" % i)
+            i = rng.choice(sorted(live))
+            src = live.pop(i)
+            others = sorted(set(x for x in live.values() if x != src))
+            if others and rng.random() < 0.6:
+                o = rng.choice(others)
+                lines.append("finish %s rewrite=%s" % (i, o))
+                if rng.random() < 0.7:      # the other source tries at once: its own count decides
+                    nid += 1
+                    lines.append("start r%d %s" % (nid, o))
+                    if sum(1 for x in live.values() if x == o) < mx:
+                        live["r%d" % nid] = o
+            elif rng.random() < 0.1:
+                lines.append("finish %s rewrite=nobody" % i)
+            else:
+                lines.append("finish %s" % i)
         else:
             nid += 1
-            lines.append("start r%d c%d" % (nid, rng.randrange(nsrc)))
-            live.append("r%d" % nid)   # may have been refused; then `finish` answers unknown
+            src = "c%d" % rng.randrange(nsrc)
+            lines.append("start r%d %s" % (nid, src))
+            if sum(1 for x in live.values() if x == src) < mx:
+                live["r%d" % nid] = src
+            elif rng.random() < 0.3:
+                lines.append("finish r%d" % nid)       # refused: answers unknown
     return lines
 
 
